@@ -11,6 +11,7 @@ mod fam_c16;
 mod fam_c18;
 mod fam_c19;
 mod fam_c20;
+mod fam_flow;
 mod world;
 mod ffi;
 mod out;
@@ -78,6 +79,10 @@ fn sys_family(name: &str) -> Option<SysFam> {
         "c06" => Some(fam_sys::c06),
         "c12" => Some(fam_sys::c12),
         "ffi_flows" => Some(fam_sys::ffi_flows),
+        "c15" => Some(fam_flow::c15),
+        "c14" => Some(fam_flow::c14),
+        "c11" => Some(fam_flow::c11),
+        "c07" => Some(fam_flow::c07),
         _ => None,
     }
 }
